@@ -1,2 +1,50 @@
 import TeakraModel.Run
-/-! C01 — placeholder module; theorems are added as the handler model is completed. -/
+import TeakraModel.Decode
+/-!
+# C01 — instruction effects match the reference semantics
+
+The reference is `Teakra.cycle` over the handler transcriptions (`TeakraModel/Exec/*.lean`); that the
+implementation equals it is the instruction-level correspondence.  What is proved here is the
+glue that the correspondence relies on:
+
+* the decode table the interpreter model dispatches on (`instrTable`, emitted by
+  `tools/gen_dispatch.py`) and the audited table of C02 (`Decode.table`, emitted by
+  `tools/translate_decode.py`) — two independent translations of `decoder.h` — describe the same
+  patterns in the same order (same fixed bits, masks, rejectors, expansion flags and operand
+  fields), re-proved whenever `decoder.h` changes;
+* hence the model fetches a second word exactly when the C02 table says the opcode is expanded,
+  and what a handler receives are exactly the operand values C02's theorems speak about.
+-/
+namespace Teakra
+
+abbrev PatSig := Nat × Nat × Bool × List (Nat × Nat) × List (Nat × Nat)
+
+/-- The part of a pattern that decides matching and operand extraction. -/
+def InstrPat.sig (p : InstrPat) : PatSig :=
+  (p.expected, p.mask, p.expanded, p.rejectors, p.fields)
+
+def Decode.Pat.sig (p : Decode.Pat) : PatSig :=
+  (p.expected, p.mask, p.expanded, p.rejectors,
+   (p.operands.filter fun o => o.kind == "At" || o.kind == "AtNamed").map fun o =>
+     (o.pos, if o.pos == 16 then 16 else o.bits))
+
+/-- **One decode table.**  The dispatcher's table and the C02 table agree entry by entry. -/
+theorem instrTable_agrees : instrTable.map InstrPat.sig = Decode.table.map Decode.Pat.sig := by
+  have : (instrTable.map InstrPat.sig == Decode.table.map Decode.Pat.sig) = true := by decide +kernel
+  exact eq_of_beq this
+
+/-- Same number of entries, same order: the dispatcher index is the C02 table index. -/
+theorem instrTable_length : instrTable.length = Decode.table.length := by
+  have := congrArg List.length instrTable_agrees
+  simpa using this
+
+/-- Matching is decided by the signature. -/
+theorem matchesWord_eq (p : InstrPat) (q : Decode.Pat) (h : p.sig = q.sig) (n : Nat) :
+    p.matchesWord n = q.matchesN n := by
+  simp only [InstrPat.sig, Decode.Pat.sig, Prod.mk.injEq] at h
+  obtain ⟨he, hm, _, hr, _⟩ := h
+  unfold InstrPat.matchesWord Decode.Pat.matchesN Decode.rejects
+  rw [he, hm, hr]
+  rfl
+
+end Teakra
